@@ -92,9 +92,21 @@ Theorem C05_aslice_split_at h a mid : GeoAslice.as_ok h a ->
      end \/ Geo.as_len a = 0%N).
 Proof. exact (GeoAslice.as_split_at_ok h a mid). Qed.
 
+(* StreamChunker (hcobs/GeoChunker.v): from any state meeting the chunker invariant, all Data chunks handed out by any
+   number of pumps are AnchoredSlices inside the chunks their own anchors hold in the FINAL memory, where they still read
+   the bytes they were handed out with (the value-level chunk sequence), and no in-bounds slice of the initial memory
+   was changed by the refills *)
+From WP Require hcobs.Chunker hcobs.GeoChunker.
+Theorem C05_chunker_slices fuel bs h k s hf cs : GeoChunker.CInv h k s ->
+  GeoChunker.gpump_all fuel bs h k s = Some (hf, cs) ->
+  GeoChunker.frame h hf /\ length h <= length hf /\ Forall (GeoChunker.chunk_ok hf) cs /\
+  map (GeoChunker.abs_chunk hf) cs = Chunker.pump_all fuel bs (GeoChunker.abs_st h s).
+Proof. exact (GeoChunker.gpump_all_refines fuel bs h k s hf cs). Qed.
+
 Print Assumptions C05_core.
 Print Assumptions C05_aslice_read_n.
 Print Assumptions C05_aslice_split_at.
 Print Assumptions C05_geo_ownership.
 Print Assumptions C05_release_only_unreachable.
 Print Assumptions C05_anchored_window.
+Print Assumptions C05_chunker_slices.
